@@ -245,6 +245,13 @@ class Interp(object):
             raise AnalysisError("oracle text must be straight-line")
         return self.ev(body[-1].value, states[0].env, ctx)
 
+    def paths(self, finfo, args=None, kwargs=None, self_obj=None):
+        """list of (conds text, cond_nf, return value) per returning path."""
+        out = []
+        for s in self.run(finfo, args, kwargs, self_obj):
+            out.append((s.conds, s.cond_nf, None if s.ret is NORET else s.ret))
+        return out
+
     def returns(self, finfo, args=None, kwargs=None, self_obj=None):
         """list of (conds, return value); falls-off-the-end paths give None."""
         out = []
@@ -549,6 +556,12 @@ class Interp(object):
                 continue
             if vals and all(isinstance(v, list) for v in vals):
                 after.env[n] = unk("looplist", n, st.lineno)
+                continue
+            if len(vals) == 1 and isinstance(vals[0], Rat) and not has_unknown(vals[0]) and \
+                    (n not in entry or isinstance(entry[n], Rat)):
+                # plain (non-accumulating) assignment in the body: value of the last iteration,
+                # or the entry value when the loop does not run
+                after.env[n] = Rat.atom(Fn("loopfinal", (entry.get(n), vals[0], tag, _itkey(it))))
                 continue
             after.env[n] = unk("loop", n, st.lineno)
         for n in tnames:
